@@ -88,11 +88,18 @@ func (daYun *DaYun) GetGanZhi() string {
 
 // GetXun 获取所在旬
 func (daYun *DaYun) GetXun() string {
+	// 起运前（序数0）没有干支，也就没有旬
+	if daYun.index < 1 {
+		return ""
+	}
 	return LunarUtil.GetXun(daYun.GetGanZhi())
 }
 
 // GetXunKong 获取旬空(空亡)
 func (daYun *DaYun) GetXunKong() string {
+	if daYun.index < 1 {
+		return ""
+	}
 	return LunarUtil.GetXunKong(daYun.GetGanZhi())
 }
 
